@@ -52,8 +52,9 @@ func Spawn(r *ev.Run, id string, timeout time.Duration, args ...string) WorkerRe
 	} else {
 		res.Died = true
 	}
-	if len(out) > 3000 {
-		out = out[len(out)-3000:]
+	if len(out) > 9000 {
+		// keep the head (fatal error line and the crashing goroutine) and the tail
+		out = out[:6000] + "\n...[snip]...\n" + out[len(out)-3000:]
 	}
 	res.Output = out
 	return res
@@ -64,4 +65,69 @@ func WorkerExit(r *ev.Run) int {
 	os.Stdout.WriteString(marker)
 	os.Stdout.Write(r.Export())
 	return 0
+}
+
+// Isolated runs body in a worker process of the same binary (`-worker isolated`), so that a
+// fatal error of the code under test (out of memory, stack overflow, log.Fatal) cannot take
+// the driver down. A worker death is re-run once and, if it reproduces, reported as a
+// violation of property id whose signature names the first coredhcp frame of the crash.
+func Isolated(r *ev.Run, id string, timeout time.Duration) {
+	res := Spawn(r, id, timeout, "isolated")
+	if !res.Died && !res.Hung {
+		return
+	}
+	res2 := Spawn(ev.New(id, r.Tier, r.Level), id, timeout, "isolated")
+	if !res2.Died && !res2.Hung {
+		panic("isolated worker died once but not on re-run (checker error): " + res.Output)
+	}
+	for _, marker := range []string{"engine error", "checker error", "merge-divergence", "checker defect", "harness request does not parse", "scenario precondition failed"} {
+		if strings.Contains(res2.Output, marker) {
+			// the worker was stopped by the checker's own consistency guards: not a verdict
+			panic("isolated worker stopped by a checker guard: " + firstLines(res2.Output, 6))
+		}
+	}
+	what := "died"
+	switch {
+	case res2.Hung:
+		what = "did not finish within the watchdog"
+	case strings.Contains(res2.Output, "out of memory"):
+		what = "ran out of memory (fatal error: out of memory)"
+	case strings.Contains(res2.Output, "stack overflow"):
+		what = "overflowed the stack"
+	}
+	site := "unknown"
+	for _, l := range strings.Split(res2.Output, "\n") {
+		l = strings.TrimSpace(l)
+		if strings.HasPrefix(l, "github.com/coredhcp/coredhcp/") && !strings.Contains(l, "erif") {
+			site = strings.TrimPrefix(l, "github.com/coredhcp/coredhcp/")
+			if i := strings.LastIndex(site, "("); i > 0 {
+				site = site[:i]
+			}
+			break
+		}
+	}
+	r.Violate(id+"/fatal/"+site, "the process exploring this property "+what+" inside coredhcp code ("+site+"): "+firstLines(res2.Output, 14), map[string]string{"worker": "isolated"})
+}
+
+func lastLines(s string, n int) string {
+	l := strings.Split(strings.TrimSpace(s), "\n")
+	if len(l) > n {
+		l = l[len(l)-n:]
+	}
+	return strings.Join(l, " | ")
+}
+
+func firstLines(s string, n int) string {
+	var keep []string
+	for _, l := range strings.Split(s, "\n") {
+		l = strings.TrimSpace(l)
+		if l == "" || strings.HasPrefix(l, "/") || strings.HasPrefix(l, "runtime.") {
+			continue
+		}
+		keep = append(keep, l)
+		if len(keep) >= n {
+			break
+		}
+	}
+	return strings.Join(keep, " | ")
 }
